@@ -191,7 +191,92 @@ def build_reference(root: Path) -> dict:
             sg = signatures(fn)
             if sg:
                 ref.setdefault(rel, {})[q] = sg
+            cmps, tests = shapes(fn)
+            if cmps or tests:
+                ref.setdefault('__shapes__', {}).setdefault(rel, {})[q] = {'cmp': sorted(cmps), 'if': sorted(tests)}
     return ref
+
+
+_FLIP = {ast.Lt: ast.Gt, ast.Gt: ast.Lt, ast.LtE: ast.GtE, ast.GtE: ast.LtE, ast.Eq: ast.Eq, ast.NotEq: ast.NotEq}
+_NEG = {ast.Lt: ast.GtE, ast.GtE: ast.Lt, ast.Gt: ast.LtE, ast.LtE: ast.Gt, ast.Eq: ast.NotEq, ast.NotEq: ast.Eq,
+        ast.Is: ast.IsNot, ast.IsNot: ast.Is, ast.In: ast.NotIn, ast.NotIn: ast.In}
+
+
+def _txt(e) -> str:
+    return ' '.join(ast.unparse(e).split())
+
+
+def shapes(fn):
+    """(texts of all single-operator comparisons, texts of all if / conditional-expression tests) in fn"""
+    cmps, tests = set(), set()
+    for n in ast.walk(fn):
+        if isinstance(n, ast.Compare) and len(n.ops) == 1:
+            cmps.add(_txt(n))
+        if isinstance(n, (ast.If, ast.IfExp, ast.While)):
+            tests.add(_txt(n.test))
+    return cmps, tests
+
+
+def flipped(c: ast.Compare):
+    if len(c.ops) == 1 and type(c.ops[0]) in _FLIP:
+        return ast.copy_location(ast.Compare(left=c.comparators[0], ops=[_FLIP[type(c.ops[0])]()], comparators=[c.left]), c)
+    return None
+
+
+def negated(t):
+    if isinstance(t, ast.UnaryOp) and isinstance(t.op, ast.Not):
+        return t.operand
+    if isinstance(t, ast.Compare) and len(t.ops) == 1 and type(t.ops[0]) in _NEG:
+        return ast.copy_location(ast.Compare(left=t.left, ops=[_NEG[type(t.ops[0])]()], comparators=t.comparators), t)
+    return ast.copy_location(ast.UnaryOp(op=ast.Not(), operand=t), t)
+
+
+class _Reshape(ast.NodeTransformer):
+    """Undo behaviour-preserving respellings when (and only when) that reproduces
+    a shape the reference function has: a flipped comparison (b > a for a < b), an
+    inverted if/else or conditional expression (if not c: B else: A)."""
+
+    def __init__(self, ref_cmp, ref_if):
+        self.ref_cmp, self.ref_if, self.n = set(ref_cmp), set(ref_if), 0
+
+    def visit_Compare(self, n):
+        self.generic_visit(n)
+        if _txt(n) not in self.ref_cmp:
+            f = flipped(n)
+            if f is not None and _txt(f) in self.ref_cmp:
+                self.n += 1
+                return f
+        return n
+
+    def _maybe_invert(self, n, body, orelse):
+        t = _txt(n.test)
+        if t in self.ref_if:
+            return None
+        neg = negated(n.test)
+        if _txt(neg) in self.ref_if:
+            return neg
+        # the negation may itself contain a flipped comparison
+        neg2 = _Reshape(self.ref_cmp, self.ref_if).visit(neg) if isinstance(neg, ast.AST) else neg
+        if _txt(neg2) in self.ref_if:
+            return neg2
+        return None
+
+    def visit_If(self, n):
+        self.generic_visit(n)
+        if n.orelse:
+            neg = self._maybe_invert(n, n.body, n.orelse)
+            if neg is not None:
+                self.n += 1
+                return ast.copy_location(ast.If(test=neg, body=n.orelse, orelse=n.body), n)
+        return n
+
+    def visit_IfExp(self, n):
+        self.generic_visit(n)
+        neg = self._maybe_invert(n, n.body, n.orelse)
+        if neg is not None:
+            self.n += 1
+            return ast.copy_location(ast.IfExp(test=neg, body=n.orelse, orelse=n.body), n)
+        return n
 
 
 _REF = None
@@ -209,9 +294,7 @@ def normalise(tree: ast.Module, rel: str, digest: str | None = None) -> tuple[as
     signature matches uniquely.  Returns (tree, number of locals renamed)."""
     if digest is not None and _load_ref().get('__digest__', {}).get(rel) == digest:
         return tree, 0  # file is byte-identical to the reference: nothing to do
-    ref = _load_ref().get(rel)
-    if not ref:
-        return tree, 0
+    ref = _load_ref().get(rel) or {}
     renamed = 0
     for q, fn in list(_functions(tree)):
         want = ref.get(q)
@@ -235,4 +318,13 @@ def normalise(tree: ast.Module, rel: str, digest: str | None = None) -> tuple[as
             renamed += len(mapping)
             for st in fn.body:
                 _Sub(mapping).visit(st)
+    shp = _load_ref().get('__shapes__', {}).get(rel, {})
+    for q, fn in list(_functions(tree)):
+        sh = shp.get(q)
+        if not sh:
+            continue
+        r = _Reshape(sh['cmp'], sh['if'])
+        fn.body = [r.visit(st) for st in fn.body]
+        renamed += r.n
+    ast.fix_missing_locations(tree)
     return tree, renamed
